@@ -7,13 +7,15 @@
   Proved here: the text formats of the file store round-trip (counter files, index lines — the obligations the byte-exact
   file model adds over the abstract store), counters written through to the counter file are what a fresh store loads,
   the SQL model's counter write-through, isolation of sessions sharing one backing, the append-only shape of the abstract map under
-  ascending saves.  The whole-history refinements are stated as `C16_*_full` (defs) and are covered by the correspondence
-  runs and the Spec monitor only.  Clause checklist at the end.
+  ascending saves, and the whole-history refinements `C16_memory_full`, `C16_file_full`, `C16_sql_full` (step simulations in
+  Qfx/Lemmas/StoreRefine.lean and Qfx/Lemmas/StoreFile.lean).  Clause checklist at the end.
 -/
 import Qfx.Model.Store
 import Qfx.Spec.Store
 import Qfx.Lemmas.Bytes
 import Qfx.Lemmas.Store
+import Qfx.Lemmas.StoreRefine
+import Qfx.Lemmas.StoreFile
 open Qfx Qfx.Store
 
 /-- under ascending saves the abstract map is an append-only log (what the header file and the messages table are) -/
@@ -146,32 +148,50 @@ theorem C16_memory_counters (w : MemW) (n : Nat) :
     ∧ (w.step .reset).2.sender = 1 ∧ (w.step .reset).2.target = 1 ∧ (w.step .reset).1.st.map = [] := by
   simp [MemW.step, MemStore.setS, MemStore.nextS, MemStore.incS, MemStore.reset, MemStore.nextT]
 
-/-! ## full refinement statements (not yet theorems; checked on every run by correspondence + monitor) -/
+/-! ## refinement: every store model gives the answers of the abstract store, for every history -/
 
-/-- ops that keep save numbers strictly ascending within an epoch, starting above `hi` -/
-def C16_ascending : Option Nat → List Op → Prop
-  | _, [] => True
-  | hi, o :: os => Qfx.Spec.Store.ascendingOk hi o = true ∧ C16_ascending (Qfx.Spec.Store.hiAfter hi o) os
+/-- the quantifier of C16, "ascending save numbers per epoch": every save uses a number above all numbers saved since the
+    last reset (`hi` = highest so far) -/
+def C16_ascending : Option Nat → List Op → Prop := Asc
 
-def C16_memory_full : Prop :=
-  ∀ ops : List Op, (∀ o ∈ ops, o ≠ .reopen) → ((MemW.create 0).run ops).2 = (({} : AStore).run ops).2
-def C16_file_full : Prop :=
-  ∀ (sync : Bool) (ops : List Op), C16_ascending none ops → ((FileW.open sync {} 0).run ops).2 = (({} : AStore).run ops).2
-def C16_sql_full : Prop :=
-  ∀ ops : List Op, C16_ascending none ops → ((SqlW.open {} 0).run ops).2 = (({} : AStore).run ops).2
+/-- every number that occurs fits a Go `int`: counters, sequence numbers, total bytes saved (the file store prints them with
+    `%019d` / `%d` and reads them back with `Atoi` / `Fscanf`, which fail beyond 2^63 − 1) -/
+def C16_fitsGoInt : AStore → List Op → Prop := FitsRun
 
-/-- non-vacuity: the refinement statements are about non-trivial histories; this one is checked by evaluation -/
+/-- memory store: for EVERY history (no hypothesis on save numbers) the observations are those of the abstract store.
+    (A memory store is not persistent, so close-and-reopen is not an operation on it.) -/
+theorem C16_memory_full (ops : List Op) (h : ∀ o ∈ ops, o ≠ .reopen) :
+    ((MemW.create 0).run ops).2 = (({} : AStore).run ops).2 :=
+  memR_run ops {} _ (memR_init 0) h
+
+/-- file store (syncing on or off), byte-exact model: for every history with ascending saves per epoch — including refresh and
+    close-and-reopen on the same files — every return value, counter, creation-time relation and retrieved message list
+    equals that of the abstract store. -/
+theorem C16_file_full (sync : Bool) (ops : List Op) (ha : C16_ascending none ops) (hf : C16_fitsGoInt {} ops) :
+    ((FileW.open sync {} 0).run ops).2 = (({} : AStore).run ops).2 :=
+  fileR_run ops {} _ none [] [] (fileR_init sync) ha hf
+
+/-- SQL store over the two-table model: likewise, including refresh and a fresh store on the same database. -/
+theorem C16_sql_full (ops : List Op) (ha : C16_ascending none ops) :
+    ((SqlW.open {} 0).run ops).2 = (({} : AStore).run ops).2 :=
+  sqlR_run ops {} _ none sqlR_init ha
+
+/-- non-vacuity: a history with saves, reopen, refresh, reset and a second epoch meets both hypotheses -/
+example : C16_ascending none [.setS 7, .saveIncr 7 [65], .reopen, .save 9 [66, 67], .get 1 9, .reset, .save 1 [68], .refresh] := by
+  simp [C16_ascending, Asc, Qfx.Spec.Store.ascendingOk, Qfx.Spec.Store.hiAfter]
+example : C16_fitsGoInt {} [.setS 7, .saveIncr 7 [65], .reopen, .save 9 [66, 67], .get 1 9, .reset, .save 1 [68], .refresh] := by
+  simp [C16_fitsGoInt, FitsRun, Fits, AStore.step, ainsert, totalLen, maxInt]
 example : ((SqlW.open {} 0).run [.setS 7, .saveIncr 7 [65], .reopen, .get 1 9]).2
         = (({} : AStore).run [.setS 7, .saveIncr 7 [65], .reopen, .get 1 9]).2 := by decide
-example : ((MemW.create 0).run [.save 2 [66], .save 1 [65], .iter 0 5 1, .reset, .get 0 5]).2
-        = (({} : AStore).run [.save 2 [66], .save 1 [65], .iter 0 5 1, .reset, .get 0 5]).2 := by decide
 
 /-!
 Clause checklist (properties.jsonl C16 → here)
 * "counters reflect the last set/increment": C16_memory_counters, C16_file_sender_durable, C16_sql_counters_durable (single steps);
-  whole histories: C16_*_full (defs) + correspondence + monitor clause `counters_differ`.
+  whole histories: C16_memory_full, C16_file_full, C16_sql_full (refinement theorems).
 * "saved messages come back byte-identical, in ascending order and only within the requested range": C16_index_line_roundtrip
-  (one loop round of IterateMessages on a well-formed header), C16_ainsert_ascending; whole histories: `_full` + monitor `messages_differ`.
+  (one loop round of IterateMessages on a well-formed header), C16_ainsert_ascending; whole histories: the three `_full` theorems
+  (memory: integer-range loop = range selection of the sorted map; file: header = rendering of the log, Fscanf loop = range selection;
+  SQL: ORDER BY of a sorted table is the identity).
 * "reset returns counters to 1, forgets all messages and renews the creation time": C16_memory_counters (reset part); monitor `creation_time_differs`.
 * "the same answers after a refresh and by a fresh store": C16_counter_file_roundtrip, C16_file_sender_durable, C16_sql_counters_durable.
 * "several sessions sharing one backing directory or database": C16_isolation, C16_backing_own_entry.
